@@ -376,8 +376,8 @@ impl Prop for C10 {
     }
     fn runs(&self, tier: Tier) -> u64 {
         match (tier, cfg!(debug_assertions)) {
-            (Tier::Quick, true) => 96,
-            (Tier::Quick, false) => 160,
+            (Tier::Quick, true) => 256,
+            (Tier::Quick, false) => 512,
             (Tier::Thorough, true) => 2_000,
             (Tier::Thorough, false) => 6_000,
         }
